@@ -594,6 +594,11 @@ impl RandGen {
                     }
                     return Some(Op::CloneBomb(t));
                 }
+                if w.objs[t as usize].state == St::Alive && w.strong(t) != 1 && self.rng.chance(1, 5) {
+                    // the value's Clone releases the program's other handles to it first
+                    self.pending.push_back(Op::MakeMut(s));
+                    return Some(Op::CloneEvict(t));
+                }
                 Some(Op::MakeMut(s))
             }
             16 => self.rng.pick(&prog).map(|&s| Op::GetMut(s)),
